@@ -315,12 +315,12 @@ Section Fields.
     - apply String.eqb_eq in E. subst t. intros H. inversion H; subst u; clear H.
       intros v W. destruct v; cbn in W; try discriminate W.
       + cbn. auto.
-      + unfold enc_field, choose. crush.
+      + unfold enc_field, enc_present, choose. crush.
     - destruct (lookup t (cfg_avro_map avro_cfg)) as [a|] eqn:L; [|discriminate].
       apply lookup_In in L. cbn in L.
       repeat (destruct L as [L|L]; [inversion L; subst t a; clear L|]); try contradiction;
         try discriminate E; cbn; intros H; inversion H; subst u; clear H;
-        intros v W; destruct v; cbn in W; try discriminate W; unfold enc_field, choose; crush.
+        intros v W; destruct v; cbn in W; try discriminate W; unfold enc_field, enc_present, choose; crush.
   Qed.
 End Fields.
 
@@ -684,6 +684,33 @@ Section Writes.
     destruct (enc_fields to_f32 of_int (map snd (s_fields sch)) (r_vals r) false) as [l|e j].
     - destruct RS as [Rp _]. unfold representable_rec in R. unfold rp_f in Rp. rewrite Rp in R. discriminate.
     - exists e. reflexivity.
+  Qed.
+
+  (* a datum that lacks its values (GroupedRecord._packdict() is empty): the datetime union has no "null" STRING
+     member, so fastavro finds "no value and no default" for _generated at the latest *)
+  Lemma enc_all_missing : forall fs fl w,
+    field_schemas avro_cfg fs = Some fl -> existsb (fun f => String.eqb (fst f) "datetime") fs = true ->
+    exists e j, enc_fields to_f32 of_int (map snd fl) (map (fun _ => VMissing) fs) w = EncFail e j.
+  Proof.
+    induction fs as [|[t n] fs IH]; intros fl w F X; [discriminate|].
+    cbn [field_schemas] in F. destruct (field_union avro_cfg t) as [u|] eqn:U; [|discriminate].
+    destruct (field_schemas avro_cfg fs) as [fl'|] eqn:F'; [|discriminate]. inversion F; subst fl; clear F.
+    cbn [map snd enc_fields hd tl]. cbn [existsb fst] in X.
+    destruct (String.eqb t "datetime") eqn:Q.
+    - unfold field_union in U. rewrite Q in U. inversion U; subst u. cbn. eauto.
+    - cbn [orb] in X. destruct (enc_field to_f32 of_int u VMissing) as [s|e wi]; [|eauto].
+      destruct (IH fl' true eq_refl X) as (e & j & ->). eauto.
+  Qed.
+
+  Lemma write_all_missing d sch st r :
+    descriptor_to_schema avro_cfg d = Some sch -> est d sch st -> desc_eqb d (r_desc r) = true ->
+    r_vals r = map (fun _ => VMissing) (all_fields avro_cfg d) ->
+    exists e, STEP st (OWrite r) = (st, Refused e).
+  Proof.
+    intros S E Q V. rewrite (write_est to_f32 of_int d sch st r E), Q, V.
+    destruct (enc_all_missing (all_fields avro_cfg d) (s_fields sch) false (sch_fields d sch S)) as (e & j & ->).
+    - unfold all_fields. rewrite existsb_app. apply orb_true_iff. right. reflexivity.
+    - eauto.
   Qed.
 
   Lemma write_representable d sch st r :
